@@ -139,6 +139,14 @@ func (f *Frame) instr(ins ssa.Instruction) {
 		if l.Kind == locCell && !knownNonNil(x.Addr) {
 			f.safety("nil", "*"+f.exprText(x.Addr), fmt.Sprintf("(not (= %s 0))", l.Ptr), x.Pos())
 		}
+		if sk, ok := f.siteKeys[x]; ok && f.top {
+			f.curArgTypes = []types.Type{x.Val.Type(), tInt}
+			args := []Val{v, {T: "0"}}
+			if ia, ok := x.Addr.(*ssa.IndexAddr); ok {
+				args[1] = f.get(ia.Index)
+			}
+			f.storeHooks(sk, args)
+		}
 		e.store(f.heap, l, v.T)
 	case *ssa.Send:
 		f.ghostAt("send", nil, Val{}, false)
@@ -146,6 +154,12 @@ func (f *Frame) instr(ins ssa.Instruction) {
 		e.note("go statement: the started goroutine is not modelled (sequential contract of its body is verified separately)")
 	case *ssa.Defer:
 		f.defers = append(f.defers, x)
+		if f.top && e.con != nil && e.con.RecoverBy != "" && f.siteKeys[x] != "" && strings.HasPrefix(f.siteKeys[x], e.con.RecoverBy+"#") {
+			// from here on every panic is caught by the handler: runtime panics are
+			// permitted exits (they become the error result)
+			f.recovered = true
+			e.note("panics raised after the deferred " + e.con.RecoverBy + " are converted to the error result (handler verified separately)")
+		}
 	case *ssa.RunDefers:
 		f.runDefers(x.Pos())
 	case *ssa.Panic:
@@ -370,9 +384,7 @@ func (f *Frame) unop(x *ssa.UnOp) {
 		}
 		f.def(x, e.load(f.heap, l))
 		e.assumeWF("", f.vals[x].T, x.Type())
-		if isPointerLike(x.Type()) {
-			e.assert(fmt.Sprintf("(< %s %s)", f.vals[x].T, e.hget(f.heap, e.S.allocVar())))
-		}
+		f.assumeAllocated(f.vals[x].T, x.Type(), 0)
 	case token.ARROW:
 		f.bind(x, f.havocVal(x.Type(), "recv"))
 		f.ghostAt("recv", nil, f.vals[x], true)
@@ -479,6 +491,12 @@ func (f *Frame) typeAssert(x *ssa.TypeAssert) {
 		tag := e.S.tagOf(x.AssertedType)
 		ok = fmt.Sprintf("(= (i_tag %s) %d)", v.T, tag)
 		val = e.unboxTerm(v.T, x.AssertedType)
+	}
+	if _, isPtr := x.AssertedType.Underlying().(*types.Pointer); isPtr {
+		// data-structure invariant of this code base: interfaces (AST nodes, values)
+		// never hold typed-nil pointers
+		e.assumeAt(f.curReach, fmt.Sprintf("(=> %s (not (= %s 0)))", ok, val))
+		e.note("interfaces are assumed never to hold typed-nil pointers (nodes and values are built from non-nil objects)")
 	}
 	if x.CommaOk {
 		okn := e.define("taok", "Bool", ok)
@@ -920,4 +938,30 @@ func escapes(v ssa.Value, seen map[ssa.Value]bool) bool {
 		}
 	}
 	return false
+}
+
+func (f *Frame) topFrame() *Frame {
+	for f.parent != nil {
+		f = f.parent
+	}
+	return f
+}
+
+// assumeAllocated: every reference reachable in a loaded / returned value
+// denotes an object that already exists (is below the allocation watermark).
+func (f *Frame) assumeAllocated(term string, t types.Type, depth int) {
+	e := f.e
+	al := e.hget(f.heap, e.S.allocVar())
+	switch u := t.Underlying().(type) {
+	case *types.Pointer, *types.Map, *types.Chan:
+		e.assert(fmt.Sprintf("(< %s %s)", term, al))
+	case *types.Slice:
+		e.assert(fmt.Sprintf("(< (sl_base %s) %s)", term, al))
+	case *types.Struct:
+		if depth < 2 {
+			for i := 0; i < u.NumFields(); i++ {
+				f.assumeAllocated(fmt.Sprintf("(%s %s)", e.S.fieldAccessor(t, i), term), u.Field(i).Type(), depth+1)
+			}
+		}
+	}
 }
